@@ -131,15 +131,15 @@ NONMUT = {
 }
 
 
-def snapshot(x):
-    """observable state (hidden values under the mask excluded)"""
+def snapshot(x, top=True):
+    """observable state (hidden values under the mask excluded); derivatives one level deep"""
     sh = x.shape
     m = np.broadcast_to(np.asarray(x._mask_), sh).copy()
     v = np.broadcast_to(np.asarray(x._values_), sh + x.item).copy()
     if m.any():
         v[m] = 0
     return (type(x).__name__, sh, x.item, v.tobytes(), m.tobytes(), str(x.units), bool(x.readonly),
-            tuple((k, snapshot(d)) for k, d in sorted(x.derivs.items())))
+            tuple((k, snapshot(d, False)) for k, d in sorted(x.derivs.items())) if top else ())
 
 
 def frozen_arrays(x):
@@ -439,10 +439,14 @@ def run_model_history(ops, Pm):
                 elif k == 'direct_values':
                     a = objs[op[1]]._values_
                     a.flat[0] = 55.
+                    for o in objs:          # a raw write bypasses the API: caches are not our subject here
+                        o._cache_.clear()
                 elif k == 'direct_mask':
                     a = objs[op[1]]._mask_
                     if isinstance(a, np.ndarray):
                         a.flat[0] = True
+                        for o in objs:
+                            o._cache_.clear()
                     else:
                         out = 'noarray'
         except ValueError:
